@@ -123,7 +123,7 @@ func (s *xblRun) awaitDkgExit(r *xblRound) {
 		sort.Slice(done, func(i, j int) bool { return done[i].member < done[j].member })
 		for _, tk := range done {
 			if tk.inc.alive.Load() {
-				w.emitLocked(xblEv{"event": "DkgExited", "node": tk.node, "inc": tk.inc.id, "member": tk.member, "round": r.id})
+				w.emitLocked(xblEv{"event": "DkgExited", "node": tk.node, "inc": tk.inc.id, "member": tk.member, "round": r.id, "block": w.block()})
 			}
 		}
 		w.mu.Unlock()
@@ -141,8 +141,17 @@ func (s *xblRun) awaitDkgExit(r *xblRound) {
 // runRelay opens a relay request for the group key, delivers the event and
 // waits until the request is over and every SignAndSubmit goroutine ended.
 func (s *xblRun) runRelay(key, prev []byte, copies map[string]int, during func(q *xblReq)) *xblReq {
+	return s.runRelay2(key, prev, copies, nil, during)
+}
+
+// runRelay2: `before` runs when the request is open on the chain and no node
+// has been told yet.
+func (s *xblRun) runRelay2(key, prev []byte, copies map[string]int, before, during func(q *xblReq)) *xblReq {
 	w := s.w
 	q := w.requestRelay(key, prev)
+	if before != nil {
+		before(q)
+	}
 	var wg sync.WaitGroup
 	for _, nd := range w.order {
 		c := 1
@@ -199,7 +208,7 @@ func (s *xblRun) awaitRelayEnd(q *xblReq) {
 		sort.Slice(done, func(i, j int) bool { return done[i].gid < done[j].gid })
 		for _, tk := range done {
 			if tk.inc.alive.Load() {
-				w.emitLocked(xblEv{"event": "SigningExited", "node": tk.node, "inc": tk.inc.id, "task": tk.gid, "member": w.tasks[tk.gid], "req": q.id})
+				w.emitLocked(xblEv{"event": "SigningExited", "node": tk.node, "inc": tk.inc.id, "task": tk.gid, "member": w.tasks[tk.gid], "req": q.id, "block": w.block()})
 			}
 		}
 		w.mu.Unlock()
@@ -246,6 +255,16 @@ func (s *xblRun) startAll() {
 	}
 }
 
+func xblOthers(all []string, x string) []string {
+	out := []string{}
+	for _, a := range all {
+		if a != x {
+			out = append(out, a)
+		}
+	}
+	return out
+}
+
 func xblTypeIs(m net.TaggedMarshaler, sub string) bool { return strings.Contains(m.Type(), sub) }
 
 // ---------------------------------------------------------------- the scenarios
@@ -275,10 +294,10 @@ func xblScenarios() []*xblScenario {
 		s.restart(restarted)
 		q1 := s.runRelay(r1.key, xblPrev(1), map[string]int{relayDup: 2}, nil)
 		// a second request (new previous entry), then a stale copy of the first
-		q2 := s.runRelay(r1.key, xblPrev(2), nil, func(q *xblReq) {
+		// (the stale copy arrives while the second request is the current one)
+		s.runRelay2(r1.key, xblPrev(2), nil, func(q *xblReq) {
 			w.deliverRelayRequested(q1, staleNode, 1)
-		})
-		_ = q2
+		}, nil)
 	}}
 
 	// the victim node dies in the middle of GJKR; the others finish without
@@ -358,7 +377,7 @@ func xblScenarios() []*xblScenario {
 	}}
 
 	// a node restarts while a relay request is open and resumes signing
-	resume := &xblScenario{name: "resume", n: 3, h: 2, seats: abc, bad: []string{}, run: func(s *xblRun) {
+	resume := &xblScenario{name: "resume", n: 3, h: 2, seats: abc, bad: xblOthers(abc, victim), run: func(s *xblRun) {
 		w := s.w
 		s.startAll()
 		r1 := s.runDKG(nil, nil, nil)
@@ -375,8 +394,6 @@ func xblScenarios() []*xblScenario {
 		s.runRelay(r1.key, xblPrev(7), map[string]int{victim: 0}, func(q *xblReq) {
 			w.waitBlock(q.start + 2)
 			s.restart(victim) // ResumeSigningIfEligible: joins the open request; its share completes the others' sets
-			// the event of the open request reaches the restarted node as well
-			w.deliverRelayRequested(q, victim, 1)
 		})
 	}}
 
@@ -464,10 +481,11 @@ func TestVerif_XBL_Lifecycle(t *testing.T) {
 	if len(scs) == 0 {
 		t.Fatalf("xbl: no scenario selected (XBL_SCENARIOS=%q)", os.Getenv("XBL_SCENARIOS"))
 	}
-	tracers := map[int]*kit.Tracer{}
+	tracers := map[string]*kit.Tracer{}
 	for _, sc := range scs {
-		if tracers[sc.n] == nil {
-			tracers[sc.n] = kit.NewTracer(t, fmt.Sprintf("trace_n%d", sc.n))
+		lay := strings.Join(sc.seats, "")
+		if tracers[lay] == nil {
+			tracers[lay] = kit.NewTracer(t, "trace_"+lay)
 		}
 	}
 	runs := make([]*xblRun, len(scs))
@@ -493,7 +511,7 @@ func TestVerif_XBL_Lifecycle(t *testing.T) {
 	wg.Wait()
 	for _, s := range runs {
 		w := s.w
-		tr := tracers[s.sc.n]
+		tr := tracers[strings.Join(s.sc.seats, "")]
 		bad := s.sc.bad
 		if bad == nil {
 			bad = []string{}
